@@ -55,7 +55,14 @@ def jobs(tier):
         out.append(("rename.%s" % ("exists" if exists else "free"), "job_rename", dict(exists=exists)))
     out.append(("rename.exists.case-variant", "job_rename", dict(exists=True, target="NAME.torrent")))
     out.append(("rename.same-name", "job_rename", dict(exists=True, target="name.torrent")))
-    for nm in ("./name", "sub/name", "../dl/name"):
+    for version in (1, 2, 3):
+        for pname in ("Backup.Torrent", "name.torrent", ".torrent"):
+            if q and (version + len(pname)) % 2:
+                continue
+            for outkind in ("parent-dir", "default-in-parent"):
+                out.append(("create.v%d.payload-%s.%s" % (version, pname, outkind), "job_create",
+                            dict(version=version, shape="single", outkind=outkind, pname=pname)))
+    for nm in ("./name", "sub/name", "../dl/name", "ghost/../keep", "ghost/../../dl/keep"):
         out.append(("rename.exists.name-%s" % nm.replace("/", "_"), "job_rename", dict(exists=True, mname=nm)))
     return out
 
@@ -133,7 +140,7 @@ def job_recheck(E, version, shape, dmg, _mutants=None):
         E.witnesses["recheck of damaged content"] = True
 
 
-def job_create(E, version, shape, outkind, magnet=False, _mutants=None, _second=False):
+def job_create(E, version, shape, outkind, magnet=False, pname=None, _mutants=None, _second=False):
     P = 16384
     fs, sizes = cr.make_fs(E, shape, 2, P, order="reversed", lo=1 if shape == "single" else 0, cwd="/work")
     if shape != "single":
@@ -141,8 +148,20 @@ def job_create(E, version, shape, outkind, magnet=False, _mutants=None, _second=
     fs.mkdirs("/out")
     fs.add("/out/keep.bin", ("k", 0), 10)
     fs.add("/work/keep2.bin", ("k", 1), 10)
-    argv = ["create", "/data/name", "--meta-version", str(version), "--piece-length", "14", "--prog", "0"]
-    if outkind == "given":
+    content = "/data/name"
+    if pname:
+        # a single-file payload whose own name looks like a metafile's, the output going next to it
+        fs.rename("/data/name", "/data/" + pname)
+        del fs.log[:]
+        content = "/data/" + pname
+    argv = ["create", content, "--meta-version", str(version), "--piece-length", "14", "--prog", "0"]
+    if outkind == "parent-dir":
+        argv += ["-o", "/data/"]
+        expect = "/data/%s.torrent" % pname
+    elif outkind == "default-in-parent":
+        fs.cwd = "/data"
+        expect = "/data/%s.torrent" % pname
+    elif outkind == "given":
         argv += ["-o", "/out/x.torrent"]
         expect = "/out/x.torrent"
     elif outkind == "existing":
@@ -175,7 +194,7 @@ def job_create(E, version, shape, outkind, magnet=False, _mutants=None, _second=
     # second pass: every path the command touched besides its output (temporary names, probes) is occupied by a
     # bystander file beforehand; the bystanders must survive untouched
     touched = sorted({a for entry in fs.log for a in entry[1:] if isinstance(a, str) and a.startswith("/") and a != expect
-                      and a not in snap[0] and not a.startswith("/data/")})
+                      and a not in snap[0] and not (a == content or a.startswith(content + "/"))})
     if touched and not _second:
         fs2, _sizes2 = cr.make_fs(E, shape, 2, P, order="reversed", lo=1 if shape == "single" else 0, cwd="/work")
         fs2.mkdirs("/out")
@@ -194,7 +213,9 @@ def job_create(E, version, shape, outkind, magnet=False, _mutants=None, _second=
                 "a file that happened to be called %r was changed or removed by create: %r" % (touched, diff2[:4]))
     payload = [p for p in snap[0] if p.startswith("/data/")]
     for entry in fs.log:
-        E.check(not any(str(a).startswith("/data/") for a in entry[1:] if isinstance(a, str)), "C18.create.payload-read-only",
+        if entry[0] in ("open-a", "open-r+", "open-a+"):
+            continue            # opening for update without writing modifies nothing (what is written shows up as 'write')
+        E.check(not any((a == content or str(a).startswith(content + "/")) and a != expect for a in entry[1:] if isinstance(a, str)), "C18.create.payload-read-only",
                 "mutating operation on the payload: %r" % (entry,))
     for k in WITNESSES:
         E.witnesses.setdefault(k, True)
@@ -293,8 +314,18 @@ def replay(params, model, notes, workdir, seed):
         os.makedirs(work)
         refconc.write_file(os.path.join(out, "keep.bin"), b"k" * 10)
         refconc.write_file(os.path.join(work, "keep2.bin"), b"k" * 10)
+        pname = params.get("pname")
+        if pname:
+            os.rename(root, os.path.join(os.path.dirname(root), pname))
+            root = os.path.join(os.path.dirname(root), pname)
         argv = ["create", root, "--meta-version", str(version), "--piece-length", "14", "--prog", "0"]
-        if outkind in ("given", "existing"):
+        if outkind == "parent-dir":
+            argv += ["-o", os.path.dirname(root) + "/"]
+            expect = os.path.join("data", pname + ".torrent")
+        elif outkind == "default-in-parent":
+            work = os.path.dirname(root)
+            expect = os.path.join("data", pname + ".torrent")
+        elif outkind in ("given", "existing"):
             argv += ["-o", os.path.join(out, "x.torrent")]
             expect = os.path.join("out", "x.torrent")
             if outkind == "existing":
